@@ -3,7 +3,7 @@
 From Coq Require Import Lia.
 From HP Require Import Base.Bytes Base.Utf8 Base.Num Model.Scanner Model.Parser Model.Elements Model.Resolver
   Model.Dates Model.Tree Model.Writer Model.Reporters Model.Cli.
-From HP Require Import Proofs.MalformedBase.
+From HP Require Import Proofs.MalformedBase Proofs.MalformedLog.
 Open Scope N_scope.
 
 Section Book.
@@ -85,6 +85,7 @@ Section Book.
   (** reg, bal, report totals, report unresolved, summary: book resolved first, then the log walked *)
   Theorem run_db_log_first_error_book : forall (w : world) (op : options) mk bt et data e es olog,
     op_db op <> [] ->
+    op_db op <> dev_null ->
     lookup (op_db op) (w_fs w) = Some (FFile data) ->
     lookup (op_db op) (w_read_fault w) = None ->
     open_file w (op_log op) = Some olog ->          (* the log opens (whatever it contains) *)
@@ -92,7 +93,7 @@ Section Book.
     run_db_log NM w op mk bt et
     = {| out_stdout := []; out_status := Failed (EParse (perr_message e)) |}.
   Proof.
-    intros w op mk bt et data e es olog Hne Hfs Hrf Hlog He.
+    intros w op mk bt et data e es olog Hne Hnd Hfs Hrf Hlog He.
     assert (Hopen : open_file w (op_db op) = Some (OData data NoFault))
       by (apply open_plain; repeat split; assumption).
     unfold run_db_log. rewrite (open_all_two _ _ _ _ _ Hopen Hlog).
@@ -112,13 +113,14 @@ Section Book.
   Theorem run_element_total_first_error_book : forall (w : world) (op : options) x desc data e es,
     x <> [] ->
     op_db op <> [] ->
+    op_db op <> dev_null ->
     lookup (op_db op) (w_fs w) = Some (FFile data) ->
     lookup (op_db op) (w_read_fault w) = None ->
     errors_of (events NM data) = e :: es ->
     run_element_total NM w op x desc
     = {| out_stdout := []; out_status := Failed (EParse (perr_message e)) |}.
   Proof.
-    intros w op x desc data e es Hx Hne Hfs Hrf He.
+    intros w op x desc data e es Hx Hne Hnd Hfs Hrf He.
     assert (Hopen : open_file w (op_db op) = Some (OData data NoFault))
       by (apply open_plain; repeat split; assumption).
     unfold run_element_total. destruct x as [|c x']; [contradiction|].
@@ -129,13 +131,14 @@ Section Book.
   (** csv database-resolved *)
   Theorem run_csv_db_resolved_first_error_book : forall (w : world) (op : options) data e es,
     op_db op <> [] ->
+    op_db op <> dev_null ->
     lookup (op_db op) (w_fs w) = Some (FFile data) ->
     lookup (op_db op) (w_read_fault w) = None ->
     errors_of (events NM data) = e :: es ->
     run_csv_db_resolved NM w op
     = {| out_stdout := []; out_status := Failed (EParse (perr_message e)) |}.
   Proof.
-    intros w op data e es Hne Hfs Hrf He.
+    intros w op data e es Hne Hnd Hfs Hrf He.
     assert (Hopen : open_file w (op_db op) = Some (OData data NoFault))
       by (apply open_plain; repeat split; assumption).
     unfold run_csv_db_resolved.
@@ -198,6 +201,7 @@ Section Book.
 
   Theorem run_csv_db_first_error_book : forall (w : world) (op : options) data pre e post,
     op_db op <> [] ->
+    op_db op <> dev_null ->
     lookup (op_db op) (w_fs w) = Some (FFile data) ->
     lookup (op_db op) (w_read_fault w) = None ->
     w_sink w = None ->
@@ -206,7 +210,7 @@ Section Book.
     = {| out_stdout := csv_db_text (nodes_of pre);          (* the rows of the records before the error *)
          out_status := Failed (EParse (perr_message e)) |}.
   Proof.
-    intros w op data pre e post Hne Hfs Hrf Hsink Hev Hpre.
+    intros w op data pre e post Hne Hnd Hfs Hrf Hsink Hev Hpre.
     assert (Hopen : open_file w (op_db op) = Some (OData data NoFault))
       by (apply open_plain; repeat split; assumption).
     unfold run_csv_db. rewrite (open_all_one _ _ _ Hopen).
@@ -222,31 +226,43 @@ Section Book.
   (** the status alone, from the error list *)
   Corollary run_csv_db_first_error_book_status : forall (w : world) (op : options) data e es,
     op_db op <> [] ->
+    op_db op <> dev_null ->
     lookup (op_db op) (w_fs w) = Some (FFile data) ->
     lookup (op_db op) (w_read_fault w) = None ->
     w_sink w = None ->
     errors_of (events NM data) = e :: es ->
     out_status (run_csv_db NM w op) = Failed (EParse (perr_message e)).
   Proof.
-    intros w op data e es Hne Hfs Hrf Hsink He.
+    intros w op data e es Hne Hnd Hfs Hrf Hsink He.
     destruct (first_error_split NM _ _ _ He) as (pre & post & Hev & Hpre & _).
-    rewrite (run_csv_db_first_error_book w op data pre e post Hne Hfs Hrf Hsink Hev Hpre). reflexivity.
+    rewrite (run_csv_db_first_error_book w op data pre e post Hne Hnd Hfs Hrf Hsink Hev Hpre). reflexivity.
   Qed.
 
-  (** * stats: reads the LOG first (counting records, stopping at its first error), then the book *)
+  (** * stats: reads the LOG first (counting records, stopping at its first error and -- fix F27 -- at the
+        first heading that is not a date), then the book *)
+  Definition stats_fold (toks : list ltoken) (st : nat * option time * time) (n : pnode) : nat * option time * time :=
+    let '(cnt, first, last) := st in
+    match parse_date toks (header n) with
+    | Some c => let t := time_of_civil c in (S cnt, match first with Some _ => first | None => Some t end, t)
+    | None => st
+    end.
+
   Theorem run_stats_first_error_book : forall (w : world) (op : options) ldata data e es,
     op_log op <> [] ->
+    op_log op <> dev_null ->
     lookup (op_log op) (w_fs w) = Some (FFile ldata) ->
     lookup (op_log op) (w_read_fault w) = None ->
     errors_of (events NM ldata) = [] -> readable ldata ->       (* the log itself is fine *)
+    Forall (dated NM (rc_date (op_rc op))) (nodes_of (events NM ldata)) ->    (* and its headings are dates *)
     op_db op <> [] ->
+    op_db op <> dev_null ->
     lookup (op_db op) (w_fs w) = Some (FFile data) ->
     lookup (op_db op) (w_read_fault w) = None ->
     errors_of (events NM data) = e :: es ->
     run_stats NM w op
     = {| out_stdout := []; out_status := Failed (EParse (perr_message e)) |}.
   Proof.
-    intros w op ldata data e es Hlne Hlfs Hlrf Hlc Hlr Hne Hfs Hrf He.
+    intros w op ldata data e es Hlne Hlnd Hlfs Hlrf Hlc Hlr Hld Hne Hnd Hfs Hrf He.
     assert (Hlopen : open_file w (op_log op) = Some (OData ldata NoFault))
       by (apply open_plain; repeat split; assumption).
     assert (Hopen : open_file w (op_db op) = Some (OData data NoFault))
@@ -254,18 +270,13 @@ Section Book.
     destruct (first_error_split NM _ _ _ He) as (pre & post & Hev & Hpre & _).
     unfold run_stats. rewrite Hlopen.
     rewrite parse_opened_data.
-    set (toks := rc_date (op_rc op)).
-    rewrite (stop_at_errors_clean NM _
-               (fun (st : nat * option time * time) n =>
-                  let '(cnt, first, last) := st in
-                  match parse_date toks (header n) with
-                  | Some c => let t := time_of_civil c in (S cnt, match first with Some _ => first | None => Some t end, t)
-                  | None => (S cnt, first, zero_time)
-                  end)); [| intros [[cnt fi] la] n; destruct (parse_date toks (header n)); reflexivity
-                          | exact Hlc | exact Hlr ].
+    set (toks := rc_date (op_rc op)) in *.
+    rewrite (stop_at_errors_good_clean NM _ (stats_fold toks) (dated NM toks));
+      [| intros [[cnt fi] la] n Hn; unfold dated in Hn; cbn [stats_fold];
+         destruct (parse_date toks (header n)); [reflexivity|contradiction]
+       | exact Hlc | exact Hld | exact Hlr ].
     cbn [fst snd].
     match goal with |- context [fold_left ?f ?l ?a] => destruct (fold_left f l a) as [[cl fi] la] end.
-    destruct (op_db op) as [|c0 dbn] eqn:Edb; [contradiction|].
     rewrite Hopen. rewrite parse_opened_data.
     rewrite (stop_at_errors_first NM _ (fun e => EParse (perr_message e))
                (fun (c : nat) (n : pnode) => S c)
@@ -274,31 +285,62 @@ Section Book.
   Qed.
 
   (** complement: an error in the log is what stats reports (the book is not even read) *)
-  Theorem run_stats_first_error_log : forall (w : world) (op : options) ldata e es,
+  Theorem run_stats_first_error_log : forall (w : world) (op : options) ldata pre e post,
     op_log op <> [] ->
+    op_log op <> dev_null ->
     lookup (op_log op) (w_fs w) = Some (FFile ldata) ->
     lookup (op_log op) (w_read_fault w) = None ->
-    errors_of (events NM ldata) = e :: es ->
+    events NM ldata = pre ++ EErr e :: post -> errors_of pre = [] ->
+    Forall (dated NM (rc_date (op_rc op))) (nodes_of pre) ->     (* the headings before it are dates *)
     run_stats NM w op
     = {| out_stdout := []; out_status := Failed (EParse (perr_message e)) |}.
   Proof.
-    intros w op ldata e es Hlne Hlfs Hlrf He.
+    intros w op ldata pre e post Hlne Hlnd Hlfs Hlrf Hev Hpre Hd.
     assert (Hlopen : open_file w (op_log op) = Some (OData ldata NoFault))
       by (apply open_plain; repeat split; assumption).
-    destruct (first_error_split NM _ _ _ He) as (pre & post & Hev & Hpre & _).
     unfold run_stats. rewrite Hlopen.
     rewrite parse_opened_data.
-    set (toks := rc_date (op_rc op)).
-    rewrite (stop_at_errors_first NM _ (fun e => EParse (perr_message e))
-               (fun (st : nat * option time * time) n =>
-                  let '(cnt, first, last) := st in
-                  match parse_date toks (header n) with
-                  | Some c => let t := time_of_civil c in (S cnt, match first with Some _ => first | None => Some t end, t)
-                  | None => (S cnt, first, zero_time)
-                  end)) with (pre := pre) (e := e) (post := post);
+    set (toks := rc_date (op_rc op)) in *.
+    rewrite (stop_at_errors_good_first NM _ (fun e => EParse (perr_message e)) (stats_fold toks) (dated NM toks))
+      with (pre := pre) (e := e) (post := post);
       [| intros s e0; reflexivity
-       | intros [[cnt fi] la] n; destruct (parse_date toks (header n)); reflexivity
-       | exact Hev | exact Hpre ].
+       | intros [[cnt fi] la] n Hn; unfold dated in Hn; cbn [stats_fold];
+         destruct (parse_date toks (header n)); [reflexivity|contradiction]
+       | exact Hev | exact Hpre | exact Hd ].
+    cbn [fst snd].
+    match goal with |- context [fold_left ?f ?l ?a] => destruct (fold_left f l a) as [[cl fi] la] end.
+    reflexivity.
+  Qed.
+
+  (** fix F27: a heading that is not a date is an error for stats as for every other command: the first
+      one (no malformed line, only dated headings before it) ends the run with the date error, nothing
+      is printed and the book is not reached *)
+  Theorem run_stats_bad_date_first : forall (w : world) (op : options) ldata pre n post,
+    op_log op <> [] ->
+    op_log op <> dev_null ->
+    lookup (op_log op) (w_fs w) = Some (FFile ldata) ->
+    lookup (op_log op) (w_read_fault w) = None ->
+    events NM ldata = pre ++ ENode n :: post -> errors_of pre = [] ->
+    Forall (dated NM (rc_date (op_rc op))) (nodes_of pre) ->
+    parse_date (rc_date (op_rc op)) (header n) = None ->
+    post <> [] \/ readable ldata ->
+    run_stats NM w op = {| out_stdout := []; out_status := Failed EBadDate |}.
+  Proof.
+    intros w op ldata pre n post Hlne Hlnd Hlfs Hlrf Hev Hpre Hd Hbad Hpost.
+    assert (Hlopen : open_file w (op_log op) = Some (OData ldata NoFault))
+      by (apply open_plain; repeat split; assumption).
+    unfold run_stats. rewrite Hlopen.
+    rewrite parse_opened_data.
+    set (toks := rc_date (op_rc op)) in *.
+    rewrite (stop_at_errors_good_stops_at_node NM _ (stats_fold toks) (dated NM toks))
+      with (pre := pre) (n := n) (post := post)
+           (s' := fold_left (stats_fold toks) (nodes_of pre) (O, None, zero_time)) (e := EBadDate);
+      [| intros [[cnt fi] la] m Hm; unfold dated in Hm; cbn [stats_fold];
+         destruct (parse_date toks (header m)); [reflexivity|contradiction]
+       | exact Hev | exact Hpre | exact Hd
+       | destruct (fold_left (stats_fold toks) (nodes_of pre) (O, None, zero_time)) as [[cnt fi] la];
+         rewrite Hbad; reflexivity
+       | exact Hpost ].
     cbn [fst snd].
     match goal with |- context [fold_left ?f ?l ?a] => destruct (fold_left f l a) as [[cl fi] la] end.
     reflexivity.
